@@ -1,6 +1,6 @@
 (** Extraction of the executable model and the oracles to OCaml (ExtrOcamlBasic only). *)
 From Coq Require Import Extraction ExtrOcamlBasic NArith List.
-From ADF Require Import Gen.GenLeaf Gen.GenFlags Base.Maps Spec.Spec Bdd.Store Adf.Iter Adf.Native Adf.NoGood Adf.Search Adf.Bio Front.Parser.
+From ADF Require Import Gen.GenLeaf Gen.GenFlags Base.Maps Spec.Spec Bdd.Store Adf.Iter Adf.Native Adf.NoGood Adf.Search Adf.Bio Front.Parser Front.Cli.
 Extraction Language OCaml.
 Extraction "extracted/model.ml"
   Store.init Store.mk_node Store.restrict Store.ite Store.variable Store.constant
@@ -18,5 +18,6 @@ Extraction "extracted/model.ml"
   GenLeaf.g_more_models GenLeaf.g_minimum GenLeaf.g_is_truth_value GenLeaf.g_compare_inf GenLeaf.g_no_inf_inconsistency GenLeaf.g_is_constant
   Bio.bio_grounded Bio.bio_complete Bio.bio_stable Bio.bio_stable_rew Bio.stable_candidates
   Bio.from_biodivine_vector Bio.bridge_all Bio.wf_dump
+  Cli.cli_run Cli.wired
   Parser.parse Parser.varsort_lexi Parser.resolve_acs Parser.formula_p
   N.add N.mul N.div_eucl N.of_nat N.to_nat N.eqb N.ltb N.leb.
